@@ -427,3 +427,43 @@ package fontscan
 //@   loop 3 invariant [idx] 0 <= indexS && indexS <= len(language.ScriptRanges)
 //@   loop 3 invariant [passed] forall(j, 0, indexS, inSet(out, language.ScriptRanges[j].Script) || language.ScriptRanges[j].End < start)
 //@   loop 3 invariant [done] forall(k, 0, rangeindex, forall(j, 0, len(language.ScriptRanges), implies(hits(ranges[k][0], ranges[k][1], j), inSet(out, language.ScriptRanges[j].Script))))
+//
+// ---------------------------------------------------------------------------------------------
+// Property C14, mechanism "family substitution and scoring order" (scoredFootprints.Less) and C11 "the script set
+// behaves as a mathematical set" (contains). The order is the documented lexicographic one:
+// strong substitutions first; among weak ones, footprints supporting the script first; then lower score, user
+// provided, not "mono", TrueType.
+//@ spec hasScript(ss ScriptSet, s language.Script) bool = exists(k, 0, len(ss), ss[k] == s)
+//@ func ScriptSet.contains C11 C14
+//@   mode int
+//@   requires [sorted] forall(k, 0, len(ss), forall(l, k+1, len(ss), ss[k] < ss[l]))
+//@   ensures [membership] result == hasScript(ss, s)
+//@   modifies nothing
+//@   loop 1 invariant [not-before] forall(k, 0, rangeindex+1, ss[k] < s)
+//
+//@ opaque monoName(family string) bool
+//@ opaque truetypeExt(file string) bool
+//@ trusted Footprint.isMonoHint
+//@   ensures [of-family] result == monoName(fp.Family)
+//@   modifies nothing
+//@ trusted Footprint.isTruetypeHint
+//@   ensures [of-file] result == truetypeExt(fp.Location.File)
+//@   modifies nothing
+//@ spec tieBreak(fpi Footprint, fpj Footprint) bool = (fpi.isUserProvided && !fpj.isUserProvided) || (fpi.isUserProvided == fpj.isUserProvided && ((!monoName(fpi.Family) && monoName(fpj.Family)) || (monoName(fpi.Family) == monoName(fpj.Family) && truetypeExt(fpi.Location.File) && !truetypeExt(fpj.Location.File))))
+//@ func less C14
+//@   mode int
+//@   requires fpi != nil && fpj != nil
+//@   ensures [lexicographic] result == (scorei < scorej || (scorei == scorej && tieBreak(*fpi, *fpj)))
+//@   ensures [irreflexive] implies(fpi == fpj && scorei == scorej, !result)
+//@   modifies nothing
+//
+//@ func scoredFootprints.Less C14
+//@   mode int
+//@   requires [indices] 0 <= i && i < len(sf.footprints) && 0 <= j && j < len(sf.footprints) && len(sf.scores) == len(sf.footprints) && 0 <= sf.footprints[i] && sf.footprints[i] < len(sf.database) && 0 <= sf.footprints[j] && sf.footprints[j] < len(sf.database)
+//@   requires [script-sets-sorted] forall(k, 0, len(sf.database[sf.footprints[i]].Scripts), forall(l, k+1, len(sf.database[sf.footprints[i]].Scripts), sf.database[sf.footprints[i]].Scripts[k] < sf.database[sf.footprints[i]].Scripts[l])) && forall(k, 0, len(sf.database[sf.footprints[j]].Scripts), forall(l, k+1, len(sf.database[sf.footprints[j]].Scripts), sf.database[sf.footprints[j]].Scripts[k] < sf.database[sf.footprints[j]].Scripts[l]))
+//@   ensures [strong-first] implies(sf.scores[i].strong != sf.scores[j].strong, result == sf.scores[i].strong)
+//@   ensures [strong-by-score] implies(sf.scores[i].strong && sf.scores[j].strong, result == (sf.scores[i].score < sf.scores[j].score || (sf.scores[i].score == sf.scores[j].score && tieBreak(sf.database[sf.footprints[i]], sf.database[sf.footprints[j]]))))
+//@   ensures [weak-script-first] implies(!sf.scores[i].strong && !sf.scores[j].strong && hasScript(sf.database[sf.footprints[i]].Scripts, sf.script) != hasScript(sf.database[sf.footprints[j]].Scripts, sf.script), result == hasScript(sf.database[sf.footprints[i]].Scripts, sf.script))
+//@   ensures [weak-then-score] implies(!sf.scores[i].strong && !sf.scores[j].strong && hasScript(sf.database[sf.footprints[i]].Scripts, sf.script) == hasScript(sf.database[sf.footprints[j]].Scripts, sf.script), result == (sf.scores[i].score < sf.scores[j].score || (sf.scores[i].score == sf.scores[j].score && tieBreak(sf.database[sf.footprints[i]], sf.database[sf.footprints[j]]))))
+//@   ensures [irreflexive] implies(i == j, !result)
+//@   modifies nothing
